@@ -1,12 +1,22 @@
 import AlgoVerif.Proofs.C12Complete
 import AlgoVerif.Proofs.C12AST
 import AlgoVerif.Proofs.C12Term
+import AlgoVerif.Proofs.C10TableEq
+import AlgoVerif.Proofs.C12ASTStack
 /-!
 # C12 — the predictive parser accepts exactly L(G) for LL(1) grammars
 
 Model: `Model/C10.lean` (`parseLoop` = the stack/input loop of `predictive.Parse` after the D19 fix,
-`parseWith` = `Parse` including the `BuildParsingTable`/`Conflicts()` gate, `buildAST` = the callbacks of
-`ParseAndBuildAST`).  Spec: `Language` of `Model/GrammarCore.lean`, `Spec.LeftmostDerives`.
+`parseWith` = `Parse` including `BuildParsingTable` — the table filled by the `addProduction` / `setSync`
+calls in the order the code makes them — and the `Conflicts()` gate, `buildASTStack` = the callbacks of
+`ParseAndBuildAST` with their explicit stack of node pointers).  Spec: `Language` of
+`Model/GrammarCore.lean`, `Spec.LeftmostDerives`.
+
+Two refinement facts carry the proofs (`C12_table_refinement`, `C12_ast_refinement`): for a duplicate-free
+production list the cells of the table built call by call are the lists `cell g fi fo A a` (so
+`Conflicts()` is `conflicts g fi fo`), and the pointer-stack builder computes the same tree as "complete the
+leftmost incomplete node" (`buildAST`).  Hypotheses of the form `conflicts g … = []` below therefore say
+"`Conflicts()` of the built table is empty".
 
 All statements are for ALL grammars, ALL token strings and EVERY iteration order of the FIRST/FOLLOW
 computation the table is built from; `parseWith … = .ok (.done …)` already says that the table had no
@@ -28,21 +38,39 @@ theorem C12_sound (g : Grammar T N) (an : Analysis T N) (fuel : Nat) (w : List T
     Spec.LeftmostDerives g (eventProds E) [Sym.nonterm g.start] (w.map Sym.term) ∧
     Language g w ∧
     eventToks E = withPos w 0 ∧
-    ∃ t, buildAST E (Tree.node g.start none []) = .ok t ∧
+    ∃ t, buildASTStack g.start E = .ok t ∧
       t.frontier = (withPos w 0).map (fun x => (x.1, some x.2)) ∧ t.yield = w := by
   unfold parseWith at h
   dsimp only at h
   split at h
-  · cases hl : parseLoop (cell g (firstStr an.first) an.follow) fuel [Sym.nonterm g.start] w 0 [] with
+  · cases hl : parseLoop (tcell (buildTable (firstStr an.first) an.follow g.prods g.nonterms)) fuel
+        [Sym.nonterm g.start] w 0 [] with
     | ok r =>
       rw [hl] at h
       simp [Outcome.map] at h
       subst h
-      obtain ⟨h1, h2⟩ := parse_sound (cell_tableSound g _ _) hl
-      exact ⟨h1, LeftmostDerives.toDerives h1, h2, ast_of_parse hl⟩
+      obtain ⟨h1, h2⟩ := parse_sound (tcell_tableSound g _ _ _) hl
+      refine ⟨h1, LeftmostDerives.toDerives h1, h2, ?_⟩
+      rw [buildASTStack_eq]
+      exact ast_of_parse hl
     | panic => rw [hl] at h; simp [Outcome.map] at h
     | diverge => rw [hl] at h; simp [Outcome.map] at h
   · cases h
+
+/-- **The table built call by call is the table of cells.**  For a duplicate-free production list (what
+`G.Productions` is) and any order of the rows: every cell of `buildTable` is the list `cell g fi fo A a`,
+`Conflicts()` is `conflicts g fi fo`, and `Parse` is `parseWithCells`. -/
+theorem C12_table_refinement (g : Grammar T N) (hnd : g.prods.Nodup) (an : Analysis T N) (rows : List N) :
+    tcell (buildTable (firstStr an.first) an.follow g.prods rows) = cell g (firstStr an.first) an.follow ∧
+    tconflicts (buildTable (firstStr an.first) an.follow g.prods rows) g.nonterms (columns g)
+      = conflicts g (firstStr an.first) an.follow ∧
+    ∀ fuel w, parseWith g an fuel w = parseWithCells g an fuel w :=
+  ⟨tcell_eq_cell hnd _ _ rows, tconflicts_eq hnd _ _ rows, fun fuel w => parseWith_eq_cells hnd an fuel w⟩
+
+/-- **The pointer-stack AST builder is "complete the leftmost incomplete node".** -/
+theorem C12_ast_refinement (S : N) (es : List (Event T N)) :
+    buildASTStack S es = buildAST es (Tree.node S none []) :=
+  buildASTStack_eq S es
 
 /-- **A sentence followed by further tokens is rejected** (unless the longer string is a sentence
 itself): `Parse` never answers "no error" on a non-sentence.  (Before the D19 fix the Model accepted
@@ -70,7 +98,8 @@ theorem C12_complete (g : Grammar T N) (hv : validB g = true) (hnd : g.prods.Nod
   refine ⟨fuel₀, E, ?_⟩
   intro fuel hf
   obtain ⟨k, rfl⟩ : ∃ k, fuel = fuel₀ + k := ⟨fuel - fuel₀, by omega⟩
-  unfold parseWith
+  rw [parseWith_eq_cells hnd]
+  unfold parseWithCells
   simp [hcf, parseLoop_mono _ _ _ _ _ _ hE k, Outcome.map]
 
 /-- **Exactness** (what the parser decides, given enough steps): accepted iff sentence. -/
@@ -102,11 +131,13 @@ theorem C12_terminates (g : Grammar T N) (hv : validB g = true) (hnd : g.prods.N
     refine ⟨fuel₀, .done r, ?_⟩
     intro fuel hf
     obtain ⟨k, rfl⟩ : ∃ k, fuel = fuel₀ + k := ⟨fuel - fuel₀, by omega⟩
-    unfold parseWith
+    rw [parseWith_eq_cells hnd]
+    unfold parseWithCells
     simp [hcf, parseLoop_mono _ _ _ _ _ _ hr k, Outcome.map]
   · refine ⟨0, .tableError, ?_⟩
     intro fuel _
-    unfold parseWith
+    rw [parseWith_eq_cells hnd]
+    unfold parseWithCells
     have : (conflicts g (firstStr an.first) an.follow).isEmpty = false := by
       cases hc : conflicts g (firstStr an.first) an.follow with
       | nil => exact absurd hc hcf
@@ -125,7 +156,8 @@ theorem C12_decides_language (g : Grammar T N) (hv : validB g = true) (hnd : g.p
   have hall : ∀ fuel, fuel ≥ fuel₀ → parseWith g an fuel w = .ok (.done r) := by
     intro fuel hf
     obtain ⟨k, rfl⟩ : ∃ k, fuel = fuel₀ + k := ⟨fuel - fuel₀, by omega⟩
-    unfold parseWith
+    rw [parseWith_eq_cells hnd]
+    unfold parseWithCells
     simp [hcf, parseLoop_mono _ _ _ _ _ _ hr k, Outcome.map]
   refine ⟨fuel₀, r, hall, ?_⟩
   constructor
@@ -157,7 +189,7 @@ example : ∃ an, analyse C12ex IterOrder.canon IterOrder.canon = .ok an ∧
     conflicts C12ex (firstStr an.first) an.follow = [] ∧
     (∃ E, parseWith C12ex an 50 [0, 0, 1] = .ok (.done (.accept E)) ∧
       eventProds E = [⟨0, [.term 0, .nonterm 1, .term 1]⟩, ⟨1, [.term 0, .nonterm 1]⟩, ⟨1, []⟩] ∧
-      ∃ t, buildAST E (Tree.node 0 none []) = .ok t ∧ t.yield = [0, 0, 1]) ∧
+      ∃ t, buildASTStack 0 E = .ok t ∧ t.yield = [0, 0, 1]) ∧
     parseWith C12ex an 50 [0, 1, 1] = .ok (.done (.reject .trailing)) ∧
     parseWith C12ex an 50 [0] = .ok (.done (.reject .noEntry)) :=
   ⟨_, rfl, by decide, ⟨_, rfl, by decide, _, rfl, by decide⟩, rfl, rfl⟩
